@@ -17,6 +17,7 @@
 #include <pistache/transport.h>
 
 #include <algorithm>
+#include <cctype>
 #include <cstring>
 #include <ctime>
 #include <iomanip>
@@ -457,7 +458,12 @@ namespace Pistache::Http
 
                 char* end;
                 const char* raw = chunkSize.rawText();
-                auto sz         = std::strtol(raw, &end, 16);
+                // strtol skips leading white space (CR and LF included) and
+                // accepts a sign: insist on a leading hex digit so that the
+                // scan cannot run past the chunk-size line
+                if (!std::isxdigit(static_cast<unsigned char>(*raw)))
+                    throw std::runtime_error("Invalid chunk size");
+                auto sz = std::strtol(raw, &end, 16);
                 if (*end != '\r')
                     throw std::runtime_error("Invalid chunk size");
 
